@@ -1,5 +1,162 @@
-/- C03 — placeholder while the proofs are being written (replaced below). -/
-import BioCantor.Spec.Sequence
-import BioCantor.Model.Sequence
+/-
+  C03 — the extracted sequence is the base-by-base image of the coordinate map; derived sequence objects keep
+  their location on the parent consistent with their characters.
+
+  Property theorems only (helper lemmas: `Proofs/Seq*.lean`).  Model: `Model/Sequence.lean` (hand mirror of
+  `extract_sequence`, `Sequence.__getitem__ / reverse_complement / append`), with complement maps and alphabet
+  flags taken from the REGENERATED `Gen/Tables.lean`.  Reference: `Spec/Sequence.lean` (`Spec.bases` + the IUPAC
+  complement of `Spec/Tables.lean`).  Every theorem quantifies over ALL parent sequences `P` (any characters),
+  all alphabet names, all well-formed locations (`WF`: any number of blocks, zero-length, adjacent, nested,
+  duplicate blocks) unless a hypothesis says otherwise; `ans` = observable answer (`none` = raised).
+-/
+import BioCantor.Proofs.SeqAppend
 namespace BioCantor.Props.C03
+open BioCantor BioCantor.Spec BioCantor.Model BioCantor.Spec.Sq BioCantor.Model.Sq BioCantor.Proofs
+  BioCantor.Proofs.Sq
+
+/-- T1: `location.extract_sequence()` over a nucleotide alphabet is letter by letter
+    `comp?_{strand}(P[(bases l)[i]])` — for every layout (self-overlapping ones included), both strands; it
+    refuses unstranded and empty locations; a letter without complement on the minus strand is refused. -/
+theorem extract_spec (P alph : List Char) (l : Location) (h : WF l) :
+    okExtract P alph l (ans (extract P alph l)) = true :=
+  extract_ok P alph l h
+
+/-- T1 as an equation (nucleotide alphabet, location inside the parent) -/
+theorem extract_is_image (P alph : List Char) (hnt : isNt alph = true) (l : Location) (h : WF l) (hw : Within P l) :
+    ans (extract P alph l) = expectExtract P alph l :=
+  extract_eq P alph hnt l h hw
+
+-- non-vacuity: minus strand, zero-length block, 0-bp gap, lower case, IUPAC codes
+example : isNt "NT_EXTENDED_GAPPED".toList = true ∧
+    WF (.compound ⟨[(0, 2), (2, 5), (6, 6), (7, 8)], .minus⟩) ∧
+    Within "ACgtRY-nK".toList (.compound ⟨[(0, 2), (2, 5), (6, 6), (7, 8)], .minus⟩) := by decide +kernel
+example : ans (extract "ACgtRY-nK".toList "NT_EXTENDED_GAPPED".toList
+    (.compound ⟨[(0, 2), (2, 5), (6, 6), (7, 8)], .minus⟩)) = some "nYacGT".toList := by decide +kernel
+
+/-- T2: `l.reverse_strand().extract_sequence()` is (a) the image for the re-stranded location (all layouts) and
+    (b) for directional, non-self-overlapping layouts the reverse complement of `l`'s own sequence, provided the
+    letters read belong to the alphabet and none is `U`/`u` (on which complementing is not an involution). -/
+theorem reverse_strand_spec (P alph : List Char) (l : Location) (h : WF l) :
+    okRevStrand P alph l (ans (revStrandExtract P alph l)) = true :=
+  revStrand_ok P alph l h
+
+/-- T2 core, reference level: re-sorting a non-self-overlapping layout for the other strand reads the same
+    positions in reverse order -/
+theorem reversed_layout_reads_backwards (bs : List Blk) (st : Strand) (hd : st ≠ .unstranded)
+    (hv : ∀ b ∈ bs, b.1 ≤ b.2) (hno : nonOverlap bs = true) :
+    bases ⟨sortBlocks (Spec.Tab.strandReverse st) bs, Spec.Tab.strandReverse st⟩ = (bases ⟨bs, st⟩).reverse :=
+  bases_reverse bs st hd hv hno
+example : nonOverlap [(0, 2), (2, 5), (6, 6), (7, 8)] = true ∧ Strand.minus ≠ .unstranded := by decide
+
+/-- T3: splitting at any `0 ≤ k ≤ len` (directional, non-self-overlapping, non-empty location inside the
+    parent): the sequences of `relint(l, 0, k, +)` and `relint(l, k, len, +)` concatenate to the sequence of
+    `l`, and the first has `k` letters. -/
+theorem split_spec (P alph : List Char) (l : Location) (h : WF l) (k : Int) :
+    okSplit P alph l k (ans (splitExtract P alph l k)) = true :=
+  split_ok P alph l h k
+example : ans (splitExtract "ACgtRY-nK".toList "NT_EXTENDED_GAPPED".toList (.single (2, 8) .minus) 2) =
+    some ("n-".toList, "RYac".toList) := by
+  decide +kernel
+
+/-- T3 core: the sequence of an in-range relative sub-interval is the slice of the sequence -/
+theorem subinterval_sequence_is_slice (P alph : List Char) (hnt : isNt alph = true) (l : Location) (h : WF l)
+    (loc : Loc) (hl : toLoc l = some loc) (hW : Within P l) (hd : loc.strand.isDirectional = true)
+    (hno : nonOverlap loc.blocks = true) (hlen : 0 < loc.len) (s e : Nat) (hse : s ≤ e) (he : e ≤ loc.len)
+    (d : List Char) (hdta : expectExtract P alph l = some d) :
+    ∃ m, relInterval l s e .plus = .ok m ∧ WF m ∧ Within P m ∧ locationStrand? m = some loc.strand ∧
+      m ≠ .empty ∧ ans (extract P alph m) = some ((d.drop s).take (e - s)) :=
+  sub_extract P alph hnt l h loc hl hW hd hno hlen s e hse he d hdta
+
+/-- T4a: an in-range slice `x[s:e]` of a consistent located sequence object (non-self-overlapping, non-empty
+    location) is answered, holds `str(x)[s:e]`, and its recorded location extracts exactly those letters. -/
+theorem slice_keeps_location_consistent (P alph : List Char) (hnt : isNt alph = true) (x : SeqObj) (l : Location)
+    (loc : Loc) (hc : Consistent P alph x l loc) (hlen : 0 < loc.len) (s e : Nat) (hse : s ≤ e)
+    (he : e ≤ x.data.length) :
+    ∃ y m pst, getSlice x (some (s : Int)) (some (e : Int)) none = .ok y ∧
+      y.data = (x.data.drop s).take (e - s) ∧ y.par = some ⟨pst, some m⟩ ∧ WF m ∧ Within P m ∧
+      locationStrand? m = some loc.strand ∧ ans (extract P alph m) = some y.data :=
+  slice_consistent P alph hnt x l loc hc hlen s e hse he
+
+-- non-vacuity of `Consistent`
+example : Consistent "ACgtRY-nK".toList "NT_EXTENDED_GAPPED".toList
+    ⟨"nYacGT".toList, some ⟨none, some (.compound ⟨[(0, 2), (2, 5), (6, 6), (7, 8)], .minus⟩)⟩⟩
+    (.compound ⟨[(0, 2), (2, 5), (6, 6), (7, 8)], .minus⟩) ⟨[(0, 2), (2, 5), (6, 6), (7, 8)], .minus⟩ :=
+  ⟨⟨none, rfl⟩, by decide, rfl, by decide, rfl, by decide, by decide +kernel⟩
+
+/-- T4b: `reverse_complement()` of such an object whose letters are complemented involutively (alphabet
+    letters, none of them `U`/`u`): reverse-complemented text, re-stranded location, reversed parent strand,
+    and the location extracts exactly the new text. -/
+theorem reverse_complement_keeps_location_consistent (P alph : List Char) (hnt : isNt alph = true) (x : SeqObj)
+    (l : Location) (loc : Loc) (hc : Consistent P alph x l loc) (hlen : 0 < loc.len)
+    (hinv : involutiveLetters P alph loc = true) :
+    ∃ d, reverseComplement alph x =
+        .ok ⟨d, some ⟨some (Model.strandReverse loc.strand), some (reverseLoc l)⟩⟩ ∧
+      revcomp alph x.data = some d ∧ ans (extract P alph (reverseLoc l)) = some d :=
+  rc_consistent P alph hnt x l loc hc hlen hinv
+example : involutiveLetters "ACgtRY-nK".toList "NT_EXTENDED_GAPPED".toList
+    ⟨[(0, 2), (2, 5), (6, 6), (7, 8)], .minus⟩ = true := by decide +kernel
+
+/- T4c, full statement (not proved in this generality; checked by the correspondence run on every pair):
+     for consistent x, y on non-self-overlapping locations lx, ly of one directional strand with span(lx) wholly
+     5' of span(ly):  append P x y = ok z, z.data = x.data ++ y.data, z.par.loc = some (lx ∪ ly) and
+     extract P alph (lx ∪ ly) = ok z.data.
+   Proved below for single-interval operands; missing for compound operands: the block structure of
+   `CompoundInterval.union` (`Model.unionP`: sort + fold of pairwise unions) on disjoint ordered inputs. -/
+
+/-- T4c (partial): concatenation of two consistent objects located on single intervals `a`, `b` of one
+    directional strand, `a` wholly 5' of `b`: answered with the concatenated text and the two-block location,
+    which extracts exactly that text. -/
+theorem append_keeps_location_consistent_partial (P alph : List Char) (hnt : isNt alph = true) (a b : Blk)
+    (st : Strand) (hd : st = .plus ∨ st = .minus) (ha : a.1 < a.2) (hb : b.1 < b.2)
+    (hwa : blkWithin P a) (hwb : blkWithin P b) (hord : if st = .plus then a.2 ≤ b.1 else b.2 ≤ a.1)
+    (dx dy : List Char) (px py : Option Strand)
+    (hx : expectExtract P alph (.single a st) = some dx) (hy : expectExtract P alph (.single b st) = some dy) :
+    ∃ m pst, append P ⟨dx, some ⟨px, some (.single a st)⟩⟩ ⟨dy, some ⟨py, some (.single b st)⟩⟩ =
+        .ok ⟨dx ++ dy, some ⟨pst, some m⟩⟩ ∧
+      m = .compound ⟨sortBlocks st [a, b], st⟩ ∧ ans (extract P alph m) = some (dx ++ dy) :=
+  append_consistent_single P alph hnt a b st hd ha hb hwa hwb hord dx dy px py hx hy
+example : blkWithin "ACGTAC".toList (3, 6) ∧ blkWithin "ACGTAC".toList (0, 2) ∧
+    (if Strand.minus = .plus then (3 : Nat) ≤ 0 else (2 : Nat) ≤ 3) ∧
+    expectExtract "ACGTAC".toList "NT_STRICT".toList (.single (3, 6) .minus) = some "GTA".toList := by
+  decide +kernel
+
+/-- the complement branch of `reverse_complement` that would be a KeyError is unreachable: every alphabet the
+    reference calls a nucleotide alphabet is flagged by the library and has a generated complement map, which
+    answers like the IUPAC complement on every character -/
+theorem complement_map_total (alph : List Char) (hnt : isNt alph = true) :
+    ∃ m, rcMap alph = .ok m ∧ ∀ c, m.lookup c = compOf alph c := by
+  obtain ⟨m, h1, h2⟩ := rcMap_ok alph hnt
+  exact ⟨m, h1, map_lookup_eq alph m h2⟩
+example : isNt "NT_STRICT_UNKNOWN".toList = true := by decide +kernel
+
+/-! ### witnesses of the known findings (the modelled current code deviates at these inputs) -/
+
+/-- F-C03a: `seq[1:]` on a located sequence raises TypeError (`slice.stop` is `None`) — the property demands an
+    answer for an open-ended in-range slice -/
+theorem open_ended_slice_raises :
+    (match getSlice ⟨"ACGT".toList, some ⟨none, some (.single (0, 4) .plus)⟩⟩ (some 1) none none with
+     | .error .TypeError => true
+     | _ => false) = true ∧
+    okProgram "ACGT".toList "NT_STRICT".toList (.single (0, 4) .plus) [.sl (some 1) none none]
+      (progAns "ACGT".toList "NT_STRICT".toList (.single (0, 4) .plus) [.sl (some 1) none none]) = false := by
+  decide +kernel
+
+/-- F-C03b: the slice step is ignored for the location: `seq[0:8:2]` holds every second letter but keeps the
+    whole interval as its location -/
+theorem stepped_slice_location_inconsistent :
+    progAns "ACGTACGT".toList "NT_STRICT".toList (.single (0, 8) .plus) [.sl (some 0) (some 8) (some 2)] =
+      some ⟨"AGAG".toList, some (some .plus, some (.single (0, 8) .plus))⟩ ∧
+    okProgram "ACGTACGT".toList "NT_STRICT".toList (.single (0, 8) .plus) [.sl (some 0) (some 8) (some 2)]
+      (progAns "ACGTACGT".toList "NT_STRICT".toList (.single (0, 8) .plus) [.sl (some 0) (some 8) (some 2)]) = false := by
+  decide +kernel
+
+/-- F-C15a seen from C03: with `U` in the parent, the reverse complement of a minus-strand sequence no longer
+    matches its recorded location (`U → A → T`) -/
+theorem reverse_complement_inconsistent_on_U :
+    progAns "GU".toList "NT_EXTENDED".toList (.single (0, 2) .minus) [.rc] =
+      some ⟨"GT".toList, some (some .plus, some (.single (0, 2) .plus))⟩ ∧
+    okProgram "GU".toList "NT_EXTENDED".toList (.single (0, 2) .minus) [.rc]
+      (progAns "GU".toList "NT_EXTENDED".toList (.single (0, 2) .minus) [.rc]) = false := by
+  decide +kernel
+
 end BioCantor.Props.C03
